@@ -227,7 +227,7 @@ func (g *sgen) schema(depth int, parentGroup string, curDef int, inPlace bool, i
 			if g.o.Draft == D7 && r.IntN(3) == 0 {
 				// siblings that would reject everything if draft-07 did not ignore them beside $ref
 				s[Pick(r, []string{"not", "not", "allOf", "enum", "type"})] = Pick(r, []any{true, map[string]any{}})
-				if _, bad := s["allOf"].(bool); bad {
+				if _, has := s["allOf"]; has {
 					s["allOf"] = []any{false}
 				}
 				if _, bad := s["enum"].(bool); bad {
